@@ -5,6 +5,7 @@ import (
 	"compress/gzip"
 	"encoding/binary"
 	"fmt"
+	"hash/crc32"
 
 	"github.com/golang/snappy"
 
@@ -569,7 +570,8 @@ func buildChunk(col vt.Column, typ int32, recs []*vt.Val, cp ChunkPhys, inj *Inj
 		}
 		ph = &PageHeader{Type: PageData, Uncompressed: int32(len(raw)), Compressed: int32(len(stored)), Data: h}
 		if pp.CRC {
-			c := int32(0x1234567)
+			// crc32 (IEEE) of the page body as stored, i.e. after compression
+			c := int32(crc32.ChecksumIEEE(stored))
 			ph.CRC = &c
 		}
 		pages = append(pages, builtPage{header: ph, body: stored})
